@@ -13,6 +13,18 @@ def b64_text(r, data):
     return base64.b64encode(data)
 
 
+def port_text(r):
+    """a port as people write it: plain decimal, decimal with leading zeros (still decimal: 0443 = 443, 08080 = 8080), and
+    spellings that are NOT decimal numerals (0x50, 0X1F): the documented format is a decimal number"""
+    p = cm.gen_port(r)
+    k = r.below(12)
+    if k == 0:
+        return b"0" * r.range(1, 3) + str(p).encode()
+    if k == 1:
+        return r.choice([b"0x50", b"0X1F", b"0x", b"010", b"08", b"09", b"0777", b"00", b"0"])
+    return str(p).encode()
+
+
 def gen_codec(rng, tier, mult):
     n = (2000 if tier == "quick" else 60000) * mult
     cases = []
@@ -117,9 +129,9 @@ def gen_codec(rng, tier, mult):
                                       b"\x7f\x00\x00\x01", b"\xff\x00\x00\x00", b"\x00\xff\xff\xff", b"\x80\x00\x00\x00"])
                     else:
                         a = r.bytes(4) if r.chance(3, 4) else bytes(r.choice([0, 1, 9, 10, 99, 100, 199, 200, 255]) for _ in range(4))
-                    s = b"[%d.%d.%d.%d]:%d" % (a[0], a[1], a[2], a[3], cm.gen_port(r))
+                    s = b"[%d.%d.%d.%d]:" % (a[0], a[1], a[2], a[3]) + port_text(r)
                 elif k == 1:
-                    s = b"[" + cm.v6_text(r, cm.gen_v6_bytes(r)) + b"]:" + str(cm.gen_port(r)).encode()
+                    s = b"[" + cm.v6_text(r, cm.gen_v6_bytes(r)) + b"]:" + port_text(r)
                 else:
                     ln = r.choice([1, 2, 50, 105, 106, 107, r.range(1, 107)])
                     s = b"/" + bytes(r.choice(b"abcXYZ019._-/:[] \x80\xfe") for _ in range(ln - 1))
